@@ -131,7 +131,7 @@ func c18floatOK(got float64, v string, def []float64) bool {
 func c18value(rng *rand.Rand) string {
 	pool := []string{"", "", "a", "  d ", "100%", "%41", "a+b", "1", "t", "TRUE", "true", "True", "0", "f", "no", "42", "-7", "+8", "007",
 		"9223372036854775807", "9223372036854775808", "-9223372036854775809", "99999999999999999999", "1_000", "0x10", "12a", " 12", "1.5", "1e3",
-		"1e309", "-1e400", "1e-400", "NaN", "inf", "0x1p-2", ".5", "\t x\n", "\xc2\xa0x\xc2\x85", "a;b", "a,b", "a b", "\"q\"", "\\", "\x00", "\x7f", "\xff\xfe", "é", "a=b&c=d", "%", "%zz", "+"}
+		"tRuE", "TRue", "FaLsE", "1e309", "-1e400", "1e-400", "NaN", "inf", "0x1p-2", ".5", "\t x\n", "\xc2\xa0x\xc2\x85", "a;b", "a,b", "a b", "\"q\"", "\\", "\x00", "\x7f", "\xff\xfe", "é", "a=b&c=d", "%", "%zz", "+"}
 	if rng.Intn(3) == 0 {
 		b := make([]byte, rng.Intn(6))
 		for i := range b {
